@@ -223,7 +223,7 @@ def c08(env, thorough):
 # =============================================================================================
 
 def c09(env, thorough):
-    steps = [
+    h1 = [
         {'op': 'init', 'user': 'root', 'pw': 'rootpw'},
         {'op': 'add', 'user': 'a', 'pw': 'p1'},
         {'op': 'update', 'user': 'a', 'pw': 'p2'},
@@ -235,20 +235,45 @@ def c09(env, thorough):
         {'op': 'setadmin', 'user': 'root', 'admin': False},
         {'op': 'remove', 'user': 'root'},
     ]
+    # second history: records that carry auxiliary data (the acknowledged record includes it)
+    h2 = [
+        {'op': 'update', 'user': 'b', 'pw': 'bnew'},
+        {'op': 'update', 'user': 'root', 'pw': 'rootnew', 'default': 2},
+        {'op': 'setadmin', 'user': 'b', 'admin': True},
+        {'op': 'update', 'user': 'b', 'pw': 'bnew2', 'default': 3},
+        {'op': 'remove', 'user': 'c'},
+        {'op': 'add', 'user': 'c', 'pw': 'cnew'},
+        {'op': 'update', 'user': 'c', 'pw': 'cnew2'},
+    ]
+    aux = {'b.user': b'totp: JBSWY3DPEHPK3PXP\nsecond line\nlast line without newline', 'root.admin': (b'x' * 1023 + b'\n') * 9}
+    _c09_history(env, 'from-empty', [], {}, h1, {})
+    _c09_history(env, 'with-aux-data', STD_SETUP, aux, h2, {'root': ('rootpw', True), 'b': ('bpw', False), 'c': ('cpw', False)})
+    return env.evidence(
+        'two traced histories without any harness sync: (1) init, add, update, set-admin(true), set-admin(false), remove, add(admin), update(other default), demotion and removal of the last admin on an initially empty directory; '
+        '(2) updates / set-admin / remove / add on a store whose records carry auxiliary data (3 lines without final newline; 9 KiB). At every acknowledgement and at every later mutating system call: every power-loss image '
+        '(every subset of pending directory operations x every prefix of pending writes); each image must show every acknowledged operation: observed through a fresh store.Dir AND byte-exact against the file the operation acknowledged; '
+        'distinct = distinct (history, acknowledged prefix, phase, observed abstract state)',
+        ['persistence model as in C08; operations in progress may show either their old or new state (their intermediate states are judged by C08)'])
+
+
+def _c09_history(env, hname, setup, auxfiles, steps, initial):
     base = os.path.join(env.work, 'c09', 'store')
-    build_tree(env, base, [], {})
+    build_tree(env, base, setup, {})
+    for fn, data in auxfiles.items():
+        append_aux(base, fn, data)
+    snap0 = user_files(read_tree(base))
     fs = FS(base)
     run = engine.run_driver(env.drv, env.work, {'base': base, 'snap': True, 'steps': steps}, tag='c09')
     if run.report is None or any(not r['ok'] for r in run.report):
-        raise TraceError('C09 history failed on the unchanged path: %s' % run.report)
+        raise TraceError('C09 history %s failed on the unchanged path: %s' % (hname, [(r['i'], r.get('err')) for r in (run.report or []) if not r['ok']]))
     points, stats, acked = engine.replay(base, fs, run)
     env.cov['traces_validated_against_impl'] += stats['validated']
     if stats['capped']:
         env.exhaustive = False
-    # expected states E_k (after ops 0..k)
-    E = []
-    cur = {}
-    for s in steps:
+    # expected abstract states E_k and expected file contents S_k (after ops 0..k)
+    E, S = [], []
+    cur = dict(initial)
+    for i, s in enumerate(steps):
         cur = dict(cur)
         u = s['user']
         if s['op'] in ('init', 'add'):
@@ -260,28 +285,27 @@ def c09(env, thorough):
         elif s['op'] == 'remove':
             cur.pop(u, None)
         E.append(cur)
-    pws = sorted({s['pw'] for s in steps if 'pw' in s})
-    users = ['root', 'a']
+        S.append(user_files(engine.snap_to_tree(run.report[i]['snap'])))
+    pws = sorted({s['pw'] for s in steps if 'pw' in s} | {v[0] for v in initial.values()})
+    users = sorted({s['user'] for s in steps} | set(initial))
     probes = [(u, p) for u in users for p in pws]
-    # also the crash instant right after each acknowledgement: use the state after the last
-    # mutation of the operation (no mutating call happens between it and the ack mark)
     trees, where = {}, {}
     for pt in points:
+        pt.desc = pt.desc.replace(base + '/', '')
         env.cov['transitions'] += 1
         k_acked = max([i for i, ok in pt.acked.items() if ok], default=-1)
         for t, label in pt.power:
             k = tree_key(t)
             trees.setdefault(k, t)
             where.setdefault(k, []).append((pt, label, k_acked))
-    # the final state after the last acknowledgement
-    final_pts = [p for p in points]
     env.cov['states'] += len(trees)
     ref, key, enc = engine.run_oracle(env.oracle, env.work, trees, probes)
-    for pt in points:
-        pt.desc = pt.desc.replace(base + '/', '')
+
+    def owner(fn):
+        return fn.rsplit('.', 1)[0]
     for k, occ in where.items():
         o = ref[k]
-        # observed abstract state
+        t = user_files(trees[k])
         obs = {}
         for u in users:
             ex, adm = o['exists'][enc(u)]
@@ -289,49 +313,50 @@ def c09(env, thorough):
                 good = [p for p in pws if o['auth'][key(u, p)][0]]
                 obs[u] = (good[0] if len(good) == 1 else ('?%d' % len(good)), adm)
         for pt, label, k_acked in occ:
+            label = label.replace(base + '/', '')
             env.cov['evaluations'] += 1
             op_in_progress = pt.op if pt.phase == 'in' and pt.op not in pt.acked else None
-            # is the operation being executed already acknowledged at this point? (points
-            # after the ack mark belong to phase 'after')
-            exp = E[k_acked] if k_acked >= 0 else {}
-            okstate = True
+            exp = E[k_acked] if k_acked >= 0 else dict(initial)
+            expfiles = S[k_acked] if k_acked >= 0 else snap0
+            busy = steps[op_in_progress]['user'] if op_in_progress is not None else None
             culprit = None
             for u in users:
-                want = exp.get(u)
-                got = obs.get(u)
+                want, got = exp.get(u), obs.get(u)
                 if got == want:
                     continue
-                if op_in_progress is not None and steps[op_in_progress]['user'] == u:
-                    # the operation in progress may already show its own effect; any other
-                    # intermediate picture of that user's file is judged by C08, except that
-                    # an EARLIER acknowledged change must not be lost through it
+                if busy == u:
                     alt = E[op_in_progress].get(u)
                     if got == alt:
                         continue
                     if steps[op_in_progress]['op'] in ('add', 'update', 'init') and (got is None or str(got[0]).startswith('?')):
                         continue  # absent / reservation / partial record: C08 judges these
-                okstate = False
                 culprit = (u, want, got)
-            env.distinct.add((k_acked, pt.phase, json.dumps(sorted(obs.items()), default=str)))
-            if not okstate:
+            # byte-exact: every file acknowledged so far is present with exactly the acknowledged bytes
+            bculprit = None
+            for fn, data in expfiles.items():
+                if busy is not None and owner(fn) == busy:
+                    continue
+                if t.get(fn) != data:
+                    have = t.get(fn)
+                    bculprit = (fn, None if have is None else len(have), len(data))
+            env.distinct.add((hname, k_acked, pt.phase, json.dumps(sorted(obs.items()), default=str)))
+            replay = {'history': steps, 'point': pt.desc, 'state': label, 'acked_upto': k_acked,
+                      'tree': {r: (None if v is None else base64.b64encode(v).decode()) for r, v in trees[k].items() if not isinstance(v, tuple)}}
+            if culprit:
                 u, want, got = culprit
-                # which acknowledged operation is lost?
-                lost = None
-                for j in range(k_acked, -1, -1):
-                    if steps[j]['user'] == u:
-                        lost = j
-                        break
+                lost = next((j for j in range(k_acked, -1, -1) if steps[j]['user'] == u), None)
                 opk = steps[lost]['op'] if lost is not None else '?'
                 env.violation('acknowledged-change-lost:%s' % opk,
-                              '[power-loss model] crash %s (%s): operations 0..%d were acknowledged, so user %s must be %s, but the post-crash store shows %s. Lost acknowledged operation: #%s %s'
-                              % (pt.desc, label, k_acked, u, want, got, lost, steps[lost] if lost is not None else None),
-                              {'history': steps, 'point': pt.desc, 'state': label, 'acked_upto': k_acked,
-                               'tree': {r: (None if v is None else base64.b64encode(v).decode()) for r, v in trees[k].items() if not isinstance(v, tuple)}})
-    env.samples.append({'history': [s['op'] + ':' + s['user'] for s in steps], 'mutation_points': len(points), 'distinct_power_loss_states': len(trees)})
-    return env.evidence(
-        'one traced history init, add, update, set-admin(true), set-admin(false), remove, add(admin), update(other default), set-admin(false) of the last admin, remove without any harness sync; at every mutating system call after each acknowledgement: every power-loss image (every subset of pending directory operations x every prefix of pending writes); '
-        'each image must show the effect of every acknowledged operation (observed through a fresh store.Dir); distinct = distinct (acknowledged prefix, phase, observed abstract state)',
-        ['persistence model as in C08; operations in progress may show either their old or new state (their intermediate states are judged by C08)'])
+                              '[history %s, power-loss model] crash %s (%s): operations 0..%d were acknowledged, so user %s must be %s, but the post-crash store shows %s. Lost acknowledged operation: #%s %s'
+                              % (hname, pt.desc, label, k_acked, u, want, got, lost, steps[lost] if lost is not None else None), replay)
+            elif bculprit:
+                fn, have, want = bculprit
+                lost = next((j for j in range(k_acked, -1, -1) if steps[j]['user'] == owner(fn)), None)
+                opk = steps[lost]['op'] if lost is not None else 'initial'
+                env.violation('acknowledged-record-not-durable:%s' % opk,
+                              '[history %s, power-loss model] crash %s (%s): operations 0..%d were acknowledged; file %s must hold exactly the %d acknowledged bytes (record + auxiliary data) but the post-crash store has %s bytes'
+                              % (hname, pt.desc, label, k_acked, fn, want, have), replay)
+    env.samples.append({'history': hname, 'steps': [s['op'] + ':' + s['user'] for s in steps], 'mutation_points': len(points), 'distinct_power_loss_states': len(trees)})
 
 
 # =============================================================================================
